@@ -366,10 +366,6 @@ where
             self.chunk_size as isize - (sinc_len as isize + 1) - t_ratio_end.ceil() as isize;
 
         // Update buffer with new data.
-        for buf in self.buffer.iter_mut() {
-            buf.copy_within(self.chunk_size..self.chunk_size + 2 * sinc_len, 0);
-        }
-
         for (chan, active) in self.channel_mask.iter().enumerate() {
             if *active {
                 debug_assert!(needed_len <= wave_out[chan].as_mut().len());
@@ -482,6 +478,12 @@ where
                     n += 1;
                 }
             }
+        }
+
+        // Move the end of this chunk to the start of the buffer, as history for the next one.
+        // This must use the chunk size of this call, it may be changed before the next.
+        for buf in self.buffer.iter_mut() {
+            buf.copy_within(self.chunk_size..self.chunk_size + 2 * sinc_len, 0);
         }
 
         // Store last index for next iteration.
